@@ -380,38 +380,38 @@ func Exit(code int) {
 	os.Exit(code)
 }
 
-func Chdir(dir string) error                            { return os.Chdir(dir) }
-func Clearenv()                                         { os.Clearenv() }
-func Environ() []string                                 { return os.Environ() }
-func Executable() (string, error)                       { return os.Executable() }
+func Chdir(dir string) error                              { return os.Chdir(dir) }
+func Clearenv()                                           { os.Clearenv() }
+func Environ() []string                                   { return os.Environ() }
+func Executable() (string, error)                         { return os.Executable() }
 func Expand(s string, mapping func(string) string) string { return os.Expand(s, mapping) }
-func ExpandEnv(s string) string                         { return os.ExpandEnv(s) }
-func Getegid() int                                      { return os.Getegid() }
-func Getenv(key string) string                          { return os.Getenv(key) }
-func Geteuid() int                                      { return os.Geteuid() }
-func Getgid() int                                       { return os.Getgid() }
-func Getgroups() ([]int, error)                         { return os.Getgroups() }
-func Getpagesize() int                                  { return os.Getpagesize() }
-func Getpid() int                                       { return os.Getpid() }
-func Getppid() int                                      { return os.Getppid() }
-func Getuid() int                                       { return os.Getuid() }
-func Getwd() (dir string, err error)                    { return os.Getwd() }
-func Hostname() (name string, err error)                { return "simhost", nil }
-func IsExist(err error) bool                            { return os.IsExist(err) }
-func IsNotExist(err error) bool                         { return os.IsNotExist(err) }
-func IsPathSeparator(c uint8) bool                      { return os.IsPathSeparator(c) }
-func IsPermission(err error) bool                       { return os.IsPermission(err) }
-func IsTimeout(err error) bool                          { return os.IsTimeout(err) }
-func LookupEnv(key string) (string, bool)               { return os.LookupEnv(key) }
-func NewSyscallError(syscall string, err error) error   { return os.NewSyscallError(syscall, err) }
-func SameFile(fi1, fi2 FileInfo) bool                   { return os.SameFile(fi1, fi2) }
-func Setenv(key, value string) error                    { return os.Setenv(key, value) }
-func TempDir() string                                   { return os.TempDir() }
-func Unsetenv(key string) error                         { return os.Unsetenv(key) }
-func UserCacheDir() (string, error)                     { return os.UserCacheDir() }
-func UserConfigDir() (string, error)                    { return os.UserConfigDir() }
-func UserHomeDir() (string, error)                      { return os.UserHomeDir() }
-func FindProcess(pid int) (*Process, error)             { return os.FindProcess(pid) }
+func ExpandEnv(s string) string                           { return os.ExpandEnv(s) }
+func Getegid() int                                        { return os.Getegid() }
+func Getenv(key string) string                            { return os.Getenv(key) }
+func Geteuid() int                                        { return os.Geteuid() }
+func Getgid() int                                         { return os.Getgid() }
+func Getgroups() ([]int, error)                           { return os.Getgroups() }
+func Getpagesize() int                                    { return os.Getpagesize() }
+func Getpid() int                                         { return os.Getpid() }
+func Getppid() int                                        { return os.Getppid() }
+func Getuid() int                                         { return os.Getuid() }
+func Getwd() (dir string, err error)                      { return os.Getwd() }
+func Hostname() (name string, err error)                  { return "simhost", nil }
+func IsExist(err error) bool                              { return os.IsExist(err) }
+func IsNotExist(err error) bool                           { return os.IsNotExist(err) }
+func IsPathSeparator(c uint8) bool                        { return os.IsPathSeparator(c) }
+func IsPermission(err error) bool                         { return os.IsPermission(err) }
+func IsTimeout(err error) bool                            { return os.IsTimeout(err) }
+func LookupEnv(key string) (string, bool)                 { return os.LookupEnv(key) }
+func NewSyscallError(syscall string, err error) error     { return os.NewSyscallError(syscall, err) }
+func SameFile(fi1, fi2 FileInfo) bool                     { return os.SameFile(fi1, fi2) }
+func Setenv(key, value string) error                      { return os.Setenv(key, value) }
+func TempDir() string                                     { return os.TempDir() }
+func Unsetenv(key string) error                           { return os.Unsetenv(key) }
+func UserCacheDir() (string, error)                       { return os.UserCacheDir() }
+func UserConfigDir() (string, error)                      { return os.UserConfigDir() }
+func UserHomeDir() (string, error)                        { return os.UserHomeDir() }
+func FindProcess(pid int) (*Process, error)               { return os.FindProcess(pid) }
 func StartProcess(name string, argv []string, attr *ProcAttr) (*Process, error) {
 	return os.StartProcess(name, argv, attr)
 }
@@ -529,12 +529,12 @@ func (f *File) Sync() error {
 	return err
 }
 
-func (f *File) Chdir() error                               { return f.f.Chdir() }
-func (f *File) Chown(uid, gid int) error                   { return f.f.Chown(uid, gid) }
-func (f *File) ReadDir(n int) ([]DirEntry, error)          { return f.f.ReadDir(n) }
-func (f *File) Readdir(n int) ([]FileInfo, error)          { return f.f.Readdir(n) }
-func (f *File) Readdirnames(n int) ([]string, error)       { return f.f.Readdirnames(n) }
-func (f *File) SetDeadline(t time.Time) error              { return f.f.SetDeadline(t) }
-func (f *File) SetReadDeadline(t time.Time) error          { return f.f.SetReadDeadline(t) }
-func (f *File) SetWriteDeadline(t time.Time) error         { return f.f.SetWriteDeadline(t) }
-func (f *File) SyscallConn() (syscall.RawConn, error)      { return f.f.SyscallConn() }
+func (f *File) Chdir() error                          { return f.f.Chdir() }
+func (f *File) Chown(uid, gid int) error              { return f.f.Chown(uid, gid) }
+func (f *File) ReadDir(n int) ([]DirEntry, error)     { return f.f.ReadDir(n) }
+func (f *File) Readdir(n int) ([]FileInfo, error)     { return f.f.Readdir(n) }
+func (f *File) Readdirnames(n int) ([]string, error)  { return f.f.Readdirnames(n) }
+func (f *File) SetDeadline(t time.Time) error         { return f.f.SetDeadline(t) }
+func (f *File) SetReadDeadline(t time.Time) error     { return f.f.SetReadDeadline(t) }
+func (f *File) SetWriteDeadline(t time.Time) error    { return f.f.SetWriteDeadline(t) }
+func (f *File) SyscallConn() (syscall.RawConn, error) { return f.f.SyscallConn() }
